@@ -291,6 +291,7 @@ def standin_main(argv):
   n = 0
   distinct = set()
   failures = []
+  nfail = {}
   samples = []
   t0 = time.time()
   for case_id, thunk in sd.fn(tier, seed):
@@ -308,10 +309,13 @@ def standin_main(argv):
       r = "raised %s: %s at %s:%s" % (type(ex).__name__, str(ex)[:200], tb[-1].filename if tb else "?",
                                       tb[-1].lineno if tb else "?")
     if r is not None and r is not True:
-      failures.append({"case": cid[:2000], "failure": str(r)[:500]})
-      if len(failures) >= 200:
+      key = str(r)[:80]
+      nfail[key] = nfail.get(key, 0) + 1
+      if nfail[key] <= 5:
+        failures.append({"case": cid[:2000], "failure": str(r)[:500]})
+      if len(failures) >= 400:
         break
-  out = {"evaluations": n, "distinct": len(distinct), "failures": failures, "samples": samples,
+  out = {"evaluations": n, "distinct": len(distinct), "failures": failures, "failure_counts": nfail, "samples": samples,
          "wall_s": round(time.time() - t0, 2)}
   sys.stdout.write("PYVC-RESULT " + json.dumps(out) + "\n")
 
